@@ -645,6 +645,10 @@ def run(ctx, chk, tier):
     # a setter that rescales its target array in place makes the returned rates disagree with the thresholds
     from . import c10
     c10.purity(ctx, chk, only=("Scores.threshold_at_fnr", "Scores.threshold_at_fpr", "Scores.fnr", "Scores.fpr"))
+    # the curve's rates are read off cm(): decision-rule counts at the thresholds AS GIVEN (a cast of the threshold to the scores' dtype moves
+    # the one-ulp end points back onto the extreme scores)
+    from . import c01 as _c01b
+    _c01b.cm_cells_rule(ctx, chk)
     for q in BANDS:
         fn = ctx.db.function(q)
         k, finds = lint(fn.node)
